@@ -94,6 +94,14 @@ func (vc *FuncVC) execBlock(b *ssa.BasicBlock) {
 			}
 			c := vc.fresh("iface", SInt)
 			vc.assume(Ne(c, IntLit(0)))
+			if isString(ins.X.Type()) {
+				// the string an interface value holds (istr(x) in contracts)
+				if !vc.declared["uf_ifstr"] {
+					vc.declared["uf_ifstr"] = true
+					vc.decls = append(vc.decls, "(declare-fun uf_ifstr (Int) Int)")
+				}
+				vc.assume(Eq(app(SInt, "uf_ifstr", c), vc.scalar(ins.X)))
+			}
 			vc.vals[ins] = &Val{T: c, GoType: ins.Type()}
 		case *ssa.Extract:
 			t := vc.val(ins.Tuple)
